@@ -398,6 +398,15 @@ pub fn render_module(m: &Module) -> String {
         out.push_str(&format!("        m.add_ts::<{r}>({});\n", lit(r)));
     }
     out.push_str("    }\n}\n");
+    if m.without_ts_derive {
+        out = out
+            .lines()
+            .filter(|l| !l.trim_start().starts_with("#[ts(") && !l.contains("m.add"))
+            .map(|l| l.replace("#[derive(ts_rs::TS)]", "").replace("ts_rs::TS, ", ""))
+            .collect::<Vec<_>>()
+            .join("\n");
+        out.push('\n');
+    }
     out
 }
 
